@@ -81,6 +81,7 @@ let components : (string * (string list * (unit -> z -> tok list -> tok list))) 
   ("addr", (["v4p"; "v4s"; "v4cmp"; "v4ops"; "v4rng"; "v4it"; "hwp"; "hws"; "bufcmp"; "bufrng"; "bufit"], mk () addr_step));
   ("rt", (["new"; "parse"; "set"; "opt"], mk None rt_step));
   ("dns", (["new"; "parse"; "addq"; "adda"; "addn"; "addr"], mk None dns_step));
+  ("sum", (["sum"], mk () sum_step));
   ("ipr", (["pkt"], mk [] ipr_step));
   ("ack", (["new"; "pkt"; "q"], mk (ack_new Z0 false) ack_step));
 ]
